@@ -9,6 +9,7 @@ import (
 
 	"github.com/herohde/morlock/pkg/board"
 	"github.com/herohde/morlock/pkg/board/fen"
+	"github.com/herohde/morlock/pkg/engine"
 	"github.com/herohde/morlock/pkg/eval"
 	"github.com/herohde/morlock/pkg/search"
 	"github.com/herohde/morlock/pkg/search/searchctl"
@@ -324,7 +325,7 @@ func init() {
 	Builders["iter"] = buildIter
 	Defs["C15"] = &Def{
 		ID:   "C15",
-		Rule: "real searchctl.Iterative.Launch on small roots (K v K, fortress, checkmated, stalemated, mate-in-1 net) x depth limit {none,1,2,3} x table {off,on} x time control {none, given}; the same with captures-only quiescence at the leaves on roots where a capture mates just beyond the horizon; the same with a table that an earlier analysis of the same root to another depth limit (deeper and shallower) has filled; threads: the iterative-deepening goroutine, its quit-cancel goroutine, a consumer, a halter whose Halt becomes enabled at scheduler step k for a grid of k over the whole run (halt instant enumerated), the hard-limit timer (release step enumerated), a consumer that itself calls Halt as soon as it has received depth 1 or 2 next to that timer (two callers of Halt; timer at every step of a grid and as a lazy thread), the search / quit-cancel / consumer goroutine in turn held back for 60 steps after the halt instant (slow-thread dimension) and, with a time control, every time.Since answered 'short' or 'longer than any limit' (environment deviation); all schedules within the deviation bound. Oracle: reported depths strictly increasing; every reported and every Halt-returned (score, PV with table off) equals a direct fixed-depth search; ends by itself exactly at the depth limit or at the first depth with a forced mate within the depth, never earlier, never without a reason; Halt returns a completed iteration >= 1 at least as deep as everything reported before it was requested. Plus the complete grid of TimeControl.Limits (sequential). distinct_nontrivial = distinct (depth stream, halt result) classes",
+		Rule: "real searchctl.Iterative.Launch on small roots (K v K, fortress, checkmated, stalemated, mate-in-1 net) x depth limit {none,1,2,3} x table {off,on} x time control {none, given}; the same with captures-only quiescence at the leaves on roots where a capture mates just beyond the horizon; the same with a table that an earlier analysis of the same root to another depth limit (deeper and shallower) has filled; threads: the iterative-deepening goroutine, its quit-cancel goroutine, a consumer, a halter whose Halt becomes enabled at scheduler step k for a grid of k over the whole run (halt instant enumerated), the hard-limit timer (release step enumerated), a consumer that itself calls Halt as soon as it has received depth 1 or 2 next to that timer (two callers of Halt; timer at every step of a grid and as a lazy thread), the search / quit-cancel / consumer goroutine in turn held back for 60 steps after the halt instant (slow-thread dimension) and, with a time control, every time.Since answered 'short' or 'longer than any limit' (environment deviation); all schedules within the deviation bound. Oracle: reported depths strictly increasing; every reported and every Halt-returned (score, PV with table off) equals a direct fixed-depth search; ends by itself exactly at the depth limit or at the first depth with a forced mate within the depth, never earlier, never without a reason; Halt returns a completed iteration >= 1 at least as deep as everything reported before it was requested. Plus the complete grid of TimeControl.Limits (sequential), and a free-running engine analysing a three-move root under a grid of time controls incl. clocks of zero and below (overstepped): depth 1 first, increasing, ends, Halt returns a completed iteration; a two-minute watchdog turns a hang into a finding. distinct_nontrivial = distinct (depth stream, halt result) classes",
 		Gen: func(tier string) []explore.Scenario {
 			roots := []string{kP1, kFortress, kMated, kStale, "7k/8/5K2/6Q1/8/8/8/8 b - - 0 1",
 				"7k/8/6K1/8/8/8/8/R7 b - - 0 1",  // the side to move is mated in 2: the analysis must end at depth 3
@@ -459,6 +460,75 @@ func init() {
 			}
 			c.SetExtra("time_control_limits_grid_points", n)
 			c.Evaluations.Add(int64(n))
+			engineClockGrid(c)
 		},
 	}
+}
+
+// engineClockGrid: a real engine (running free, real timers) analyses a tiny root under every time
+// control of a grid that includes what a GUI sends when a side has overstepped - clocks of zero and
+// below. Whatever the clocks say, the analysis must report depth 1 first, in increasing order, end,
+// and Halt must then return a completed iteration. A generous watchdog (two minutes for an analysis
+// of a few microseconds) turns a hang into a finding instead of a hung check.
+func engineClockGrid(c *harness.Check) {
+	clocks := []time.Duration{-time.Hour, -time.Millisecond, -1, 0, 1, time.Millisecond, 50 * time.Millisecond}
+	n := 0
+	for _, root := range []string{kP1, "7k/8/8/8/8/8/8/K7 b - - 0 1"} {
+		for _, w := range clocks {
+			for _, b := range clocks {
+				for _, moves := range []int{0, 1} {
+					for _, limit := range []uint{1, 2} {
+						tc := searchctl.TimeControl{White: w, Black: b, Moves: moves}
+						what := fmt.Sprintf("root %q clocks white=%v black=%v moves=%d depth limit %d", root, w, b, moves, limit)
+						done := make(chan string, 1)
+						go func() {
+							ctx := context.Background()
+							e := engine.New(ctx, "verif", "verif", search.AlphaBeta{Eval: search.Leaf{Eval: eval.Material{}}}, engine.WithOptions(engine.Options{Hash: 0}))
+							if err := e.Reset(ctx, root); err != nil {
+								done <- "reset failed: " + err.Error()
+								return
+							}
+							out, err := e.Analyze(ctx, searchctl.Options{DepthLimit: lang.Some(limit), TimeControl: lang.Some(tc)})
+							if err != nil {
+								done <- "analysis refused: " + err.Error()
+								return
+							}
+							last := 0
+							for pv := range out {
+								if pv.Depth != last+1 {
+									done <- fmt.Sprintf("reported depth %d after depth %d", pv.Depth, last)
+									return
+								}
+								last = pv.Depth
+							}
+							pv, err := e.Halt(ctx)
+							switch {
+							case last < 1:
+								done <- "the analysis ended without reporting depth 1"
+							case last > int(limit):
+								done <- fmt.Sprintf("the analysis went on to depth %d", last)
+							case err == nil && pv.Depth < last:
+								done <- fmt.Sprintf("Halt returned depth %d after depth %d had been reported", pv.Depth, last)
+							default:
+								done <- ""
+							}
+						}()
+						n++
+						select {
+						case msg := <-done:
+							if msg != "" {
+								c.Violation(fmt.Sprintf("C15/engine-clock white=%v black=%v", w, b), what+": "+msg, "note", nil)
+							}
+						case <-time.After(2 * time.Minute):
+							c.Violation(fmt.Sprintf("C15/engine-clock-hang white=%v black=%v", w, b), what+": the engine neither reported a depth nor ended the analysis within two minutes (an analysis of three legal moves)", "note", nil)
+							c.SetExtra("engine_clock_grid_points", n)
+							return // the engine's goroutine may be spinning: no point in piling up more
+						}
+					}
+				}
+			}
+		}
+	}
+	c.SetExtra("engine_clock_grid_points", n)
+	c.Evaluations.Add(int64(n))
 }
